@@ -46,3 +46,31 @@ def expected_selection(text, old, msgs):
 @native_helper
 def verdicts(m, msgs):
     return tuple(bool(m.matches(x)) for x in msgs)
+
+
+@native_helper
+def listing_expected(ctl, arg):
+    """what `list ARG` has to show (C11), computed before the call from the statement: the recorded messages of the selected connection (or all)
+    that match the given matcher alone - the current filter only when no matcher is given - last N of them when `~ N` is given.
+    None: the argument is rejected (bad count / bad matcher)"""
+    from core import matcher
+    parts = arg.split('~')
+    cap = None
+    if len(parts) == 2:
+        try:
+            cap = int(parts[1])
+        except ValueError:
+            return None
+    text = parts[0]
+    if text:
+        try:
+            m = matcher.parse(text).simplify()
+        except RuntimeError:
+            m = matcher.never          # an unparsable matcher is reported and lists with `never` (parse_and_join's fallback)
+    else:
+        m = ctl.display_matcher
+    src = ctl.all_messages if ctl.current_connection is None else list(ctl.current_connection.messages())
+    hits = [x for x in src if m.matches(x)]
+    if cap:
+        hits = hits[-cap:]
+    return tuple(hits)
